@@ -22,7 +22,7 @@ import (
 // sweepCfg: every first byte 0x00..0xFF followed by a plaintext (correctly signed) login
 // against a server that must only talk TLS.
 type sweepCfg struct {
-	SrvMode  string // force | ca
+	SrvMode  string // force | ca | force-ini (force written as tls_only in a legacy INI document)
 	Mux      bool
 	Protocol string // tcp | websocket | kcp
 }
@@ -30,10 +30,11 @@ type sweepCfg struct {
 func sweepConfigs(thorough bool) []sweepCfg {
 	s := []sweepCfg{
 		{"force", false, "tcp"}, {"force", true, "tcp"}, {"ca", false, "tcp"}, {"force", false, "websocket"},
+		{"force-ini", false, "tcp"},
 	}
 	if thorough {
 		s = append(s, sweepCfg{"ca", true, "tcp"}, sweepCfg{"ca", true, "websocket"}, sweepCfg{"force", true, "websocket"},
-			sweepCfg{"force", false, "kcp"}, sweepCfg{"ca", true, "kcp"})
+			sweepCfg{"force", false, "kcp"}, sweepCfg{"ca", true, "kcp"}, sweepCfg{"force-ini", true, "websocket"})
 	}
 	return s
 }
@@ -54,7 +55,11 @@ func sweepCase(c *h.Case, sc sweepCfg) {
 	if sc.SrvMode == "ca" {
 		cert = "good"
 	}
-	ps, err := serverFor(srvKey{Mode: sc.SrvMode, Cert: cert, Mux: sc.Mux})
+	key := srvKey{Mode: sc.SrvMode, Cert: cert, Mux: sc.Mux}
+	if sc.SrvMode == "force-ini" {
+		key.Mode, key.Legacy = "force", true
+	}
+	ps, err := serverFor(key)
 	if err != nil {
 		run.Inconclusive("sweep: server did not start: " + err.Error())
 		return
